@@ -1,6 +1,8 @@
 import Nv.Model.C05
 import Nv.Spec.C05
 import Nv.Proofs.C05Hist
+import Nv.Proofs.C05Agree
+import Nv.Proofs.C05Recent
 /-!
 C05 — property theorems for the TTL caches (model: `Nv.Model.C05`, history spec: `Nv.Spec.C05`).
 
@@ -140,7 +142,73 @@ theorem ttl_bound_hits (c : Cfg) (hc : c.indexOrder = .beforeEvict) (clock size 
   have h3 : (final (MSys.step c) (MSys.start clock size dttl) ops).mem.size = size := hsz
   omega
 
+/-! ### a recently touched key is never evicted
+
+Full statement (NOT yet proved as one theorem over histories):
+
+    ∀ c, c.indexOrder = .beforeEvict → ∀ s (reachable), ∀ k on the recency list, ∀ ops that contain no Clear and no
+    call addressing k: if the number of *distinct* keys addressed by `ops` plus the number of nodes in front of k
+    is < size, then k is still indexed, with the same node, in `final (MSys.step c) s ops`.
+
+What is proved (`_partial`): the one-call step with *positions* instead of distinct keys — a call that does not
+address k moves its node back by at most one place and cannot drop it while fewer than `size − 1` nodes are in
+front of it; a hit / overwrite puts the key at the head; a Set of a new key drops exactly the tail, and only when
+the list is full. Missing for the full statement: the counting argument that the nodes in front of k are always
+among the distinct keys addressed since k's last touch (a subset/cardinality invariant over `ops`). -/
+
+theorem ttl_recent_not_evicted_partial (c : Cfg) (hc : c.indexOrder = .beforeEvict) (m : Mem) (hb : Bounded m)
+    (x : Node) (i : Nat) (h : At m x i) (hi : i + 1 < m.size) (now : Int) (op : Op)
+    (hop : opKey op ≠ some x.key) (hcl : op ≠ .clear) : At (m.step c now op).1 x (i + 1) :=
+  at_step hc hb h hi now op hop hcl
+
+/-- a Set of a new key pushes it to the front and drops exactly the tail of the recency list, only when full -/
+theorem ttl_evicts_only_tail (c : Cfg) (hc : c.indexOrder = .beforeEvict) (m : Mem) (n : Node) :
+    (m.live.length < m.size ∧ (m.insertNew c n).live = n :: m.live) ∨
+    (m.size ≤ m.live.length ∧ (m.insertNew c n).live = (n :: m.live).dropLast) :=
+  insertNew_live hc m n
+
+/-- a hit or an overwrite moves the key's node to the head of the recency list -/
+theorem ttl_touch_moves_to_front (m : Mem) (n x : Node) (h : findKey n.key m.live = some x) :
+    (m.touch n).live = n :: eraseKey n.key m.live :=
+  touch_head h
+
+/-- non-vacuity of `ttl_recent_not_evicted_partial`: k2 sits behind one node in a cache of size 3 -/
+example : let m : Mem := ⟨3, 0, [⟨1, 5, none⟩, ⟨2, 6, none⟩], []⟩
+    Bounded m ∧ At m ⟨2, 6, none⟩ 1 ∧ 1 + 1 < m.size :=
+  ⟨⟨rfl, by decide⟩, ⟨[⟨1, 5, none⟩], [], rfl, by decide⟩, by decide⟩
+
+/-! ### the redis-backed cache agrees with the in-memory one -/
+
+/-- For the repaired sources (`Proved c`: ttl converted with `* time.Second`, `set()` purges an elapsed entry, index
+    written before the eviction): for every size, every default ttl, every starting clock (ms; the in-memory cache
+    reads whole seconds, redis milliseconds, whatever the sub-second phase) and every history inside the comparison
+    domain of the property — `Admissible`: positive ttls, keep-ttl (without must-not-exist) on live keys only, no call
+    on a key at a clock reading equal to its deadline, no Set that would evict — both caches return the same
+    hit/miss, value and already-exists result for every call. -/
+theorem ttl_mem_rds_agree (c : Cfg) (hc : Proved c) (clock size : Nat) (dttl : Int) (ops : List Op)
+    (hadm : Admissible c (Sys.new clock size dttl) ops) :
+    ∀ o ∈ outs (Sys.step c) (Sys.new clock size dttl) ops, o.1 = o.2 :=
+  agree_run hc ops _ (rel_new clock size dttl) hadm
+
+/-- the simulation behind it: one admissible call keeps the two stores related and gives equal results -/
+theorem ttl_mem_rds_step (c : Cfg) (hc : Proved c) (s : Sys) (hR : Rel s) (op : Op) (ha : admOp s op) :
+    (Sys.step c s op).2.1 = (Sys.step c s op).2.2 ∧ Rel (Sys.step c s op).1 :=
+  agree_sys_step hc hR ha
+
 /-! ### non-vacuity -/
+
+/-- an admissible history with hits, an elapsed key, set-if-absent, keep-ttl, update-ttl and a consuming read -/
+example : Admissible Cfg.fixed (Sys.new 1700000000500 2 5)
+    [.set 1 5 ⟨some 3, false, false⟩, .tick 1700, .get 1 ⟨false, none⟩, .set 1 6 ⟨none, false, true⟩, .tick 3000,
+     .get 1 ⟨false, none⟩, .set 1 7 ⟨some 2, true, false⟩, .get 1 ⟨false, some 4⟩, .tick 3000, .get 1 ⟨true, none⟩,
+     .get 1 ⟨false, none⟩] := admissibleB_sound _ _ (by decide)
+
+example : outs (Sys.step Cfg.fixed) (Sys.new 1700000000500 2 5)
+    [.set 1 5 ⟨some 3, false, false⟩, .tick 1700, .get 1 ⟨false, none⟩, .set 1 6 ⟨none, false, true⟩, .tick 3000,
+     .get 1 ⟨false, none⟩, .set 1 7 ⟨some 2, true, false⟩, .get 1 ⟨false, some 4⟩, .tick 3000, .get 1 ⟨true, none⟩,
+     .get 1 ⟨false, none⟩] =
+    [(.ok, .ok), (.ok, .ok), (.value 5, .value 5), (.ok, .ok), (.ok, .ok), (.notFound, .notFound), (.ok, .ok),
+     (.value 7, .value 7), (.ok, .ok), (.value 7, .value 7), (.notFound, .notFound)] := by decide
 
 example : Proved Cfg.fixed := by decide
 example : ¬ Proved Cfg.today := by decide
@@ -192,5 +260,27 @@ theorem not_bound_today :
   intro h
   have := h 0 0 0 [.set 1 5 ⟨none, false, false⟩] 0
   revert this; decide
+
+/-- F04: `time.Duration(ttl)` is nanoseconds — a key set with ttl 60 s is gone on redis two seconds later
+    (`SET … PX 1`), while the in-memory cache still serves it; the history is admissible. -/
+theorem witness_rds_ttl_unit :
+    outs (Sys.step Cfg.today) (Sys.new 1700000000000 2 60)
+      [.set 1 5 ⟨none, false, false⟩, .tick 2000, .get 1 ⟨false, none⟩] =
+      [(.ok, .ok), (.ok, .ok), (.value 5, .notFound)] ∧
+    admissibleB Cfg.today (Sys.new 1700000000000 2 60)
+      [.set 1 5 ⟨none, false, false⟩, .tick 2000, .get 1 ⟨false, none⟩] = true := by decide
+
+theorem not_agree_today :
+    ¬ (∀ (clock size : Nat) (dttl : Int) (ops : List Op), Admissible Cfg.today (Sys.new clock size dttl) ops →
+        ∀ o ∈ outs (Sys.step Cfg.today) (Sys.new clock size dttl) ops, o.1 = o.2) := by
+  intro h
+  have := h 1700000000000 2 60 [.set 1 5 ⟨none, false, false⟩, .tick 2000, .get 1 ⟨false, none⟩]
+    (admissibleB_sound _ _ witness_rds_ttl_unit.2) (.value 5, .notFound) (by rw [witness_rds_ttl_unit.1]; simp)
+  cases this
+
+/-- the command go-redis sends for ttl = 60 today, and after the repair -/
+theorem witness_rds_command :
+    goSetExpiry (durOf Cfg.today 60) = .px 1 ∧ goSetExpiry (durOf Cfg.fixed 60) = .ex 60 ∧
+    formatSec (durOf Cfg.today 60) = 1 ∧ formatSec (durOf Cfg.fixed 60) = 60 := by decide
 
 end Nv.C05
